@@ -24,6 +24,8 @@ inductive Beh where
   | tarpit    -- accepts the connection and never answers
   | garbage   -- answers with something that is not the protocol, or closes without a word
   | drop      -- the SYN is never answered (filtered host)
+  | badline   -- not an endpoint at all: a target-list line that names no valid target (bad address, bad port, not
+              -- JSON): one error record, never a probe (C13), and the scan goes on with the next line
   deriving Repr, DecidableEq
 
 structure Target where
@@ -37,7 +39,7 @@ def detects (t : Target) : Bool := !t.excluded && t.beh == .ok
 
 /-- the probe of this target fails: there is no answer to decide on -/
 def fails (t : Target) : Bool :=
-  !t.excluded && (t.beh == .refused || t.beh == .tarpit || t.beh == .garbage || t.beh == .drop)
+  !t.excluded && (t.beh == .refused || t.beh == .tarpit || t.beh == .garbage || t.beh == .drop || t.beh == .badline)
 
 /-- identity of the record of a detected target: scan type, scheme, and the probed host:port in the form the
     result type documents (socks: `ip` + `port`; elastic: `host`; docker: `host` = `tcp://ip:port`) -/
@@ -66,5 +68,8 @@ def timeouts (cmd : String) : Nat := if cmd == "socks" then 4 else 1
 /-- wall time (µs) of a whole run against ONE endpoint that never answers, timeout `tMs` -/
 def timeOK (cmd : String) (tMs exitMs slackMs us : Nat) : Bool :=
   decide (us ≤ (timeouts cmd * tMs + exitMs + slackMs) * 1000)
+
+/-- C16 at the process boundary: a run that is not interrupted does not end before its exit delay has passed -/
+def delayOK (exitMs us : Nat) : Bool := decide (exitMs * 1000 ≤ us)
 
 end SxVerif.Spec.AppRun
